@@ -31,7 +31,17 @@ ZeroPairCases ==
       fd |-> FixedDeltas[((Pos(WeightSeq, x.wk) + 3 * Pos(MethodSeq, x.method) + x.za + 2 * x.zb + x.npos
                            + (IF x.objs = "one" THEN 0 ELSE 1)) % Len(FixedDeltas)) + 1]] :
        x \in {y \in ZeroPairBase : y.za # y.zb}}
-Init == c \in LawCases \cup ZeroPairCases
+(* one dominating weight: an array with weight 1 for the largest observation and 1e-14 / 1e-16 /  *)
+(* 1e-18 for all others, and 'cubic' weights on a sample with one outlier 1e5 / 1e6 x typical.     *)
+(* The regression is then decided by the tiny weights; one-pass sums cancel.  Judged against the   *)
+(* EXACT rational solution of the normal equations on the same float coordinates.                  *)
+DominantKinds == {"w1e14", "w1e16", "w1e18", "cubic1e5", "cubic1e6"}
+DominantCases ==
+    {[kind |-> "dominant", dom |-> x.dom, method |-> x.method, rep |-> x.rep,
+      fd |-> FixedDeltas[((Pos(MethodSeq, x.method) + 2 * x.rep + (IF x.dom \in {"w1e14", "cubic1e5"} THEN 0 ELSE 3))
+                          % Len(FixedDeltas)) + 1]] :
+       x \in [dom : DominantKinds, method : SetOfSeq(MethodSeq), rep : Reps]}
+Init == c \in LawCases \cup ZeroPairCases \cup DominantCases
 Next == UNCHANGED c
 Spec == Init /\ [][Next]_c
 Emit == PrintT(<<"BEH", ToJson(c)>>)
